@@ -281,27 +281,34 @@ def check_relocation(ctx):
     order = [(A.call_name(c), [A.norm(a) for a in c.args]) for c in sorted(A.calls_in(mv), key=lambda c: c.lineno) if A.call_name(c) in ("_build_cmds_new_qubit", "_build_cmds_two_qubit", "_build_cmds_qfree")]
     want = [("_build_cmds_new_qubit", ["target"]), ("_build_cmds_two_qubit", ["GenericInstr.MOV", "source", "target"]), ("_build_cmds_qfree", ["source"])]
     ctx.check("C09.M", "_build_cmds_move_qubit:alloc-target-move-free-source", order == want, f"move emits {order}; expected allocate target, mov source->target, free source", b.loc(mv), sample={"sequence": order})
-    # lowest unused id
+    # lowest unused id: the method is executed abstractly (nqsa/circuit.py) on memory managers holding handles with given ids
+    from .. import circuit as C
     mm = repo.get_class("netqasm.sdk.memmgr", "MemoryManager")
-    g = mm.methods.get("get_new_qubit_address")
+    r_ = repo.lookup(mm, "get_new_qubit_address")
+    g = r_[1] if r_ is not None else None
     ok = False
     if g is not None:
         ctx.fn("MemoryManager.get_new_qubit_address")
-        d = A.single_defs(g)
-        inuse = [k for k, v in d.items() if A.norm(v) == "[q.qubit_idforqinself._active_qubits]"]
-        # the first id, counting from 0, that is not in use: as a loop with an early return, or as next(<generator>)
-        for r_ in A.returns(g):
-            v_ = r_.value
-            if isinstance(v_, ast.Call) and A.norm(v_.func) == "next" and len(v_.args) == 1 and isinstance(v_.args[0], ast.GeneratorExp) and inuse:
-                ge = v_.args[0]
-                if len(ge.generators) == 1 and A.norm(ge.generators[0].iter) == "count(0)" and isinstance(ge.generators[0].target, ast.Name) \
-                        and A.norm(ge.elt) == ge.generators[0].target.id and [A.norm(c_) for c_ in ge.generators[0].ifs] == [f"{ge.generators[0].target.id}notin{inuse[0]}"]:
-                    ok = True
-        for lp in [n for n in ast.walk(g) if isinstance(n, ast.For)]:
-            if A.norm(lp.iter) == "count(0)" and inuse:
-                for st in lp.body:
-                    if isinstance(st, ast.If) and A.norm(st.test) == f"{lp.target.id}notin{inuse[0]}" and any(isinstance(x, ast.Return) and A.norm(x.value) == lp.target.id for x in st.body):
-                        ok = True
+        got = {}
+        try:
+            for ids in ((), (0,), (1, 2), (0, 1, 3), (0, 1, 2), (2, 0, 1, 5), (0, 0, 1)):
+                # attributes other than the handle list start as __init__ leaves them: a remembered answer is state too
+                o = C.object_from_init(repo, mm, {"_active_qubits": [C.Obj(None, {"qubit_id": k}) for k in ids]})
+                it = C.Interp(repo, ev, C.Scenario(), None)
+                first = it.call_function(r_[0].module, g, [], {}, self_obj=o)
+                # asked again on the same object after a live handle was given the id just handed out (what NV relocation does:
+                # `q.qubit_id = new_virtual_address`, the list of handles itself is untouched): the answer must follow the handles
+                hs = o.fields["_active_qubits"]
+                want_first = min(set(range(len(ids) + 2)) - set(ids))
+                if hs and isinstance(first, int):
+                    hs[0].fields["qubit_id"] = first
+                now = [h_.fields["qubit_id"] for h_ in hs]
+                second = C.Interp(repo, ev, C.Scenario(), None).call_function(r_[0].module, g, [], {}, self_obj=o)
+                got[ids] = (first == want_first, second == min(set(range(len(now) + 2)) - set(now)))
+            ok = all(a_ and b_ for a_, b_ in got.values())
+        except (AnalysisError, C.EvalRaise) as ex_:
+            ctx.error("C09.M", f"MemoryManager.get_new_qubit_address cannot be evaluated: {ex_}")
+            ok = True
     ctx.check("C09.M", "MemoryManager.get_new_qubit_address:lowest-id-not-held-by-an-active-handle", ok, "a new virtual id is not the lowest id that no active handle holds", mm.loc(g) if g else "")
     # allocation command for a new handle uses the handle's id
     qc = repo.get_class("netqasm.sdk.qubit", "Qubit")
